@@ -224,3 +224,84 @@ def _(self, data: Map('str', Val), encoder: Obj("Encoder")):
                     and encoder.chunks_number_of_bits == g_chunks))
     ensures((encoder.number_of_bits == g_nb and encoder.value == g_val and encoder.chunks_number_of_bits == g_chunks)
             or (encoder.number_of_bits == 0 and encoder.value == 0 and encoder.chunks_number_of_bits == 0))
+
+
+fields("Integer", minimum=Opt(Int), maximum=Opt(Int), has_extension_marker=Bool, number_of_bits=Opt(Nat),
+       number_of_indefinite_bits=Opt(Nat),
+       root_minimum=Union(Int, Lit('MIN'), NoneT), root_maximum=Union(Int, Lit('MAX'), NoneT))
+invariant("Integer", (self.number_of_bits is None) == (self.minimum is None),
+          (self.minimum is None) == (self.maximum is None),
+          implies(self.minimum is not None, self.root_minimum == self.minimum and self.root_maximum == self.maximum),
+          implies(self.number_of_bits is not None,
+                  self.minimum <= self.maximum and self.number_of_bits == blen(self.maximum - self.minimum)
+                  and (self.number_of_indefinite_bits is None) == (self.maximum - self.minimum <= 65535)),
+          implies(self.number_of_bits is None, self.number_of_indefinite_bits is None))
+fixup("Integer", "if self.minimum is None or self.maximum is None:\n    self.minimum = self.maximum = self.number_of_bits = self.number_of_indefinite_bits = None\nelse:\n    self.minimum, self.maximum = min(self.minimum, self.maximum), max(self.minimum, self.maximum)\n    self.number_of_bits = (self.maximum - self.minimum).bit_length()\n    self.root_minimum, self.root_maximum = self.minimum, self.maximum\n    self.number_of_indefinite_bits = None if self.maximum - self.minimum <= 65535 else ((self.number_of_bits + 7) // 8 - 1).bit_length()")
+
+
+@contract("Integer.set_restricted_to_range", props=["C05", "C01"])
+def _(self, minimum: IntOrMin, maximum: IntOrMax, has_extension_marker: Bool):
+    # X.691 11.5.7 (aligned): a finite range lb..ub: blen(ub - lb) bits for ranges up to 64K; larger ranges use the
+    # "indefinite length" form (a length field of blen(octets - 1) bits)
+    requires(self.number_of_bits is None and self.minimum is None and self.maximum is None
+             and self.number_of_indefinite_bits is None)
+    requires(minimum == 'MIN' or maximum == 'MAX' or minimum <= maximum)
+    no_invariant()
+    assigns(self)
+    ensures(self.has_extension_marker == has_extension_marker)
+    ensures(self.root_minimum == minimum and self.root_maximum == maximum)
+    ensures(implies(minimum != 'MIN' and maximum != 'MAX',
+                    self.minimum == minimum and self.maximum == maximum and self.number_of_bits == blen(maximum - minimum)
+                    and (self.number_of_indefinite_bits is None) == (maximum - minimum <= 65535)))
+    ensures(implies(minimum != 'MIN' and maximum != 'MAX' and maximum - minimum > 65535,
+                    self.number_of_indefinite_bits == blen((blen(maximum - minimum) + 7) // 8 - 1)))
+    ensures(implies(minimum == 'MIN' or maximum == 'MAX',
+                    self.minimum is None and self.maximum is None and self.number_of_bits is None
+                    and self.number_of_indefinite_bits is None))
+
+
+@contract("Integer.encode", props=["C05", "C01", "C12"], label="aligned")
+def _(self, data: Int, encoder: Obj("Encoder")):
+    # X.691 13 + 11.5.7 (aligned): root values of a range of at most 255 values: a bit field of blen(ub - lb) bits, no
+    # alignment; 256 values: one aligned octet; up to 64K: two aligned octets.  Ranges above 64K (indefinite length
+    # form) are not under contract here.
+    requires(encoder.number_of_bits <= 3900)
+    requires(self.number_of_indefinite_bits is None)
+    requires(-pow2(1000) < data and data < pow2(1000))
+    requires(implies(self.number_of_bits is not None and not self.has_extension_marker,
+                     self.minimum <= data and data <= self.maximum))          # established by check_constraints (C11)
+    known("F25", py_is_int(self.root_minimum) and not py_is_int(self.root_maximum))
+    use(blen_upper(data - self.minimum))
+    use(blen_mono(data - self.minimum, self.maximum - self.minimum))
+    use(pow2_mono(blen(data - self.minimum), blen(self.maximum - self.minimum)))
+    raises(EncodeError, when=False)
+    assigns(encoder)
+    ensures(implies(not self.has_extension_marker and py_is_int(self.root_minimum) and not py_is_int(self.root_maximum)
+                    and self.root_minimum <= data and data - self.root_minimum < 256,
+                    (encoder.chunks_number_of_bits + encoder.number_of_bits) % 8 == 0
+                    and encoder.value % 65536 == 256 + (data - self.root_minimum)))
+    ensures(implies(self.number_of_bits is not None and not self.has_extension_marker
+                    and self.maximum - self.minimum + 1 <= 255,
+                    encoder.number_of_bits == old(encoder.number_of_bits) + self.number_of_bits
+                    and encoder.value == old(encoder.value) * pow2(self.number_of_bits) + (data - self.minimum)))
+    ensures(implies(self.number_of_bits is not None and not self.has_extension_marker
+                    and self.maximum - self.minimum + 1 == 256,
+                    (encoder.chunks_number_of_bits + encoder.number_of_bits) % 8 == 0
+                    and encoder.value % 256 == data - self.minimum))
+    ensures(implies(self.number_of_bits is not None and self.has_extension_marker
+                    and self.minimum <= data and data <= self.maximum and self.maximum - self.minimum + 1 <= 255,
+                    encoder.number_of_bits == old(encoder.number_of_bits) + 1 + self.number_of_bits
+                    and encoder.value == 2 * old(encoder.value) * pow2(self.number_of_bits) + (data - self.minimum)))
+
+
+@contract("Integer.decode", props=["C05", "C01", "C16", "C08"], label="aligned")
+def _(self, decoder: Obj("Decoder")) -> Int:
+    # every read is checked (truncation -> OutOfDataError); a root value of a finite range is at least the lower bound
+    opaque("ld_size", "ld_val", "ld_bad")
+    requires(self.number_of_indefinite_bits is None)
+    raises(OutOfDataError)
+    raises(DecodeError)
+    raises(ValueError)        # unconstrained whole number with a zero length determinant (not a valid encoding)
+    assigns(decoder)
+    ensures(decoder.number_of_bits <= old(decoder.number_of_bits) and decoder.value == old(decoder.value))
+    ensures(implies(self.number_of_bits is not None and not self.has_extension_marker, result >= self.minimum))
